@@ -6,6 +6,7 @@ CONSTANTS NP = 3
   ProbeHws <- PHws
   InitSets <- Init3q
   MaxEarly = 1
+  LisModes <- LisNone
   D = 0
 INIT Init
 NEXT Next
